@@ -101,3 +101,7 @@ HRW = dict(unit="hcomp_rw_u.c", file="hdf/src/hcomp.c", objbits=8, cex_unwind=4,
 # restriction cbmc considers every function of the signature, HCPread itself included, and does not finish
 ob("HCPread", ["C05", "C20"], entry="h_HCPread", enforce="HCPread", gi_flags=["--restrict-function-pointer", "HCPread.function_pointer_call.1/m_read"], **HRW)
 ob("HCPseek", ["C05", "C20"], entry="h_HCPseek", enforce="HCPseek", gi_flags=["--restrict-function-pointer", "HCPseek.function_pointer_call.1/m_seek"], **HRW)
+
+# NOT REGISTERED (resources): Hbitread per call, position accounting only (contract and harness h_bitread are in hbitio_sw_u.c, -DBSW_POSONLY).
+# It would catch a wrong block_offset after a buffer refill (seeded change C05-m4); the SAT conversion ran out of memory at 10 GB (200 s) and
+# at 36 GB (500 s) -- the 4096-byte buffer object again, as for the read-mode Hbitseek.
